@@ -287,6 +287,19 @@ def body_chain(case):
         F6, _ = run_radio(dict(case, band=[lo, hi2]), beta, alt, length, theta, L, E, c)
         require(F5.shape == F6.shape and F5.tobytes() == F6.tobytes(), f"a live EASRadio object re-tuned from {lo}-{hi} MHz to {lo}-{hi2} MHz returns fields of shape {F5.shape}; a fresh object for {lo}-{hi2} MHz returns {F6.shape}" + ("" if F5.shape != F6.shape else " with different values"))
     labels = set()
+    if case.get("preempt") and hi2 != hi:
+        # two EASRadio objects tuned to DIFFERENT bands (same low edge) evaluate overlapping calls: harness-owned nested
+        # schedule; each call returns what it returns on its own
+        from ..interleave import check_overlapping
+
+        ra_, rb_ = EASRadio(_config(case)), EASRadio(_config(dict(case, band=[lo, hi2])))
+
+        def field(obj):
+            with scripted(np.full(n * 200 + 16, c)), quiet():
+                return np.asarray(obj(beta, alt, length, theta, L, E), dtype=np.float64)
+
+        if check_overlapping(lambda: field(ra_), lambda: field(rb_), case["preempt"], f"EASRadio calls of two objects tuned to {lo}-{hi} and {lo}-{hi2} MHz"):
+            labels.add("overlapping_calls_different_bands")
     if labels_f32:
         labels.add("float32_event_arrays")
     if np.any(~np.isfinite(E)):
@@ -413,6 +426,7 @@ SUBCHECKS = [
                 "edit_level": st.sampled_from(EDIT_LEVELS),
                 "io_fault": st.booleans(),
                 "f32": st.booleans(),
+                "preempt": st.one_of(st.just([]), st.just([]), st.lists(st.one_of(st.integers(0, 40), st.integers(0, 250)), min_size=1, max_size=2)),
                 "scalar_dtype": st.sampled_from([None, "int8", "uint8", "int16", "uint16", "int32", "float32", "float16"]),
             }
         ),
